@@ -5,6 +5,7 @@ import Just.Model.Args
 import Just.Model.EnvExport
 import Just.Model.Workdir
 import Just.Model.Search
+import Just.Model.Dotenv
 open Lean
 
 namespace Just.Run
@@ -55,3 +56,8 @@ namespace Just.Search
 deriving instance FromJson, ToJson for Level
 deriving instance ToJson for Outcome
 end Just.Search
+
+namespace Just.Dotenv
+deriving instance FromJson, ToJson for Cfg
+deriving instance ToJson for Res
+end Just.Dotenv
